@@ -32,6 +32,7 @@ def race_reports(prefix):
             if "WARNING: DATA RACE" not in rep:
                 continue
             tops = []
+            rep = rep.replace("WARNING: DATA RACE\n", "", 1)
             for stack in re.split(r"\n\n", rep):
                 if not re.match(r"\s*(Write|Read|Previous write|Previous read|Atomic|Previous atomic)", stack.lstrip("\n")):
                     continue
@@ -220,13 +221,13 @@ def run(ctx):
                         "internal registries (protoserialization, primitiveregistry, keygenregistry) are exercised for lookups "
                         "through the public entry points only (aead.New..., keyset parsing, AddNewKeyFromParameters)"]
     # ---------------- (M)
-    ctx.model_check("MC_Concurrency", workers=2, heap="2g", stage="M:3 goroutines x deterministic + randomized calls, all interleavings")
+    ctx.model_check("MC_Concurrency", workers=1, heap="2g", stage="M:3 goroutines x deterministic + randomized calls, all interleavings")
     r = ctx.tlc("MC_ConcurrencyShared", workers=1, heap="2g")
     if r.invariant != "ConcurrentEqualsAlone":
         raise vlib.Infra("the model with shared scratch state does not violate ConcurrentEqualsAlone: the property is vacuous (%s)" % r.summary())
     ctx.stage("M:shared-scratch counter-model", violates="ConcurrentEqualsAlone", trace_len=r.trace_len)
-    ctx.model_check("MC_Registry", "MC_Registry_km", workers=4, heap="4g", stage="M:registry 2 goroutines x 2 calls, key-manager map, history properties")
-    ctx.model_check("MC_Registry", "MC_Registry_kms", workers=4, heap="4g", stage="M:registry 2 goroutines x 2 calls, KMS client list")
+    ctx.model_check("MC_Registry", "MC_Registry_km", workers=1, heap="4g", stage="M:registry 2 goroutines x 2 calls, key-manager map, history properties")
+    ctx.model_check("MC_Registry", "MC_Registry_kms", workers=1, heap="4g", stage="M:registry 2 goroutines x 2 calls, KMS client list")
     if ctx.thorough:
         ctx.model_check("MC_Registry", "MC_Registry_3x2", workers=8, heap="8g", timeout=2400,
                         stage="M:registry 3 goroutines x 2 calls x all operations")
